@@ -282,6 +282,8 @@ fn full_alphabet() -> Vec<String> {
         "(", ")", "(", ")", ",", "{", "}", "[", "]", "x", "y", "z", "Erwin", "sin4", "α", "_a", "1", "2.5", ".5", "3.", "1e5",
         "2147483648", "99999999999999999999", "0.1.2", "{x}", "{a b}", "{}", "[1,2,3]", "[1, 2", "[]", "[1.5]", "true", "false",
         "=", "é", "😀", "\u{a0}", "ά", "\t", "\n", "\0", "x=", "0", "-", "+", "*", "/", "^", "(", ")", "1", "x", " ",
+        // characters that are numeric / alphabetic / blank for Unicode but not for the documented ASCII rules
+        "²", "½", "٣", "１２", "1.٥", "x²", "Ⅷ", "𝟙", "\u{2003}", "\u{3000}", "ǆ", "ß", "İ", "𝒙", "[#1, 2]", "[1, ٣]", "[ ]", "[,]", "[1,,2]",
     ] {
         a.push(s.to_string());
     }
